@@ -35,6 +35,7 @@ CTORS = ["rows", "pyrows", "mixedrows", "flat", "flat_nplens", "flatlist", "shap
 FLOOR_TAGS = ["ctor:" + c for c in CTORS] + ["kind:b", "kind:i", "kind:u", "kind:f", "v:small", "v:extreme", "v:nonfinite",
                                              "reject", "saveload", "matrix-roundtrip", "order:F", "order:T", "order:strided", "norows", "allempty", "e-first", "e-last", "e-mid", "e-consec", "e-none", "big-repr", "lensdtype:narrow", "lensdtype:sum-overflows"]
 FLOOR_MONITORS = ["c01:readback", "c01:geometry", "c01:reject", "c01:result-independent", "inv:ragged"]
+FP_STRICT = True       # a floating-point event inside the library that the dense computation does not have is a violation (shard.FpMonitor)
 N_RANDOM = {"quick": 12500, "thorough": 120000}
 
 
@@ -140,7 +141,7 @@ def run(case):
     ]
     # conversion to another element type follows numpy's astype on the flat values (value-preserving targets only: no NaN/overflow casts)
     tgt = np.dtype(gen.DT_ALL[(len(case["vals"]) * 7 + n) % len(gen.DT_ALL)])
-    with np.errstate(all="ignore"):
+    if True:       # (no errstate override: the floating-point-event tap must see numpy's own events)
         conv = flat.astype(tgt)
     if np.array_equal(conv.astype(np.float64), flat.astype(np.float64), equal_nan=True) or tgt.kind == "b":
         checks.append(("astype(%s)" % tgt, lambda: ra.astype(tgt), lambda g: isinstance(g, RA) and g.dtype == tgt and np.asarray(g.lengths).tolist() == lens and eqrow(g.ravel(), conv), conv))
